@@ -75,7 +75,7 @@ func drawPlan(t *rapid.T) *plan {
 	p.Cfg = hx.DrawConfig(t, []string{"xterm-256color", "xterm-256color", "linux", "vt220", "vt100", "screen"}, 10, 5)
 	p.Sim = rapid.IntRange(0, 5).Draw(t, "simscreen") == 0
 	p.Pair = rapid.IntRange(0, 2).Draw(t, "pairmode") == 0
-	p.Locale = rapid.SampledFrom([]string{"", "", "en_US.ISO8859-1"}).Draw(t, "locale")
+	p.Locale = rapid.SampledFrom([]string{"", "", "en_US.ISO8859-1", "", "zh_CN.GB2312", "ja_JP.ISO-2022-JP"}).Draw(t, "locale")
 	p.Cfg.Locale = p.Locale
 	focus := focusSets[rapid.IntRange(0, len(focusSets)-1).Draw(t, "focus")]
 	na := rapid.IntRange(2, 4).Draw(t, "nactors")
